@@ -72,6 +72,7 @@ package priority
 //@   modifies pg.resmods, pg.resmods[*]
 //@ func groupFromJSON
 //@   serves C12
+//@   at entry 0 before assert[configuration-keys-are-the-documented-ones] jsonkey(groupJSON.Modifiers) == "modifiers" && jsonkey(groupJSON.Scope) == "scope" && jsonkey(modifierJSON.Priority) == "priority" && jsonkey(modifierJSON.Modifier) == "modifier"
 //@   modifies fjErr, gjWantReq, gjWantRes, gjAddReq, gjAddRes
 //@   noframe
 //@   at entry 0 before set fjErr = false
